@@ -106,15 +106,24 @@ def run_case(case):
     if case["type"] == "carver" and case["carver"] != "multiclass" and "f" in obj.features and not viol:
         from . import c17
 
+        import pickle
+
         evs = c17.enabled(obj, X, case["kind"])
+        quant = "f" in obj.quantitative_features
         ev = next((e for e in evs if e[1] == "NaN"), None) or next((e for e in evs if e[0] == "group"), None)
-        if ev is not None:
+        # ... and after the leader of the first group was renamed / its threshold raised (mode 'replace')
+        ev2 = next((e for e in evs if e[0] == "replace" and e[1] != "NaN" and (not quant or e[2] > e[1])), None)
+        blob = pickle.dumps(obj)
+        for e, tag in ((ev, "edited"), (ev2, "renamed")):
+            if e is None:
+                continue
+            o2 = pickle.loads(blob)
             try:
-                c17.apply_edit(obj, ev)
-                check_object(obj, X, f"after update_discretizer{tuple(ev)}: ", viol)
-                tags.append("edited")
+                c17.apply_edit(o2, e)
             except Exception:  # noqa  (the edit itself is C17's business)
-                pass
+                continue
+            check_object(o2, X, f"after update_discretizer{tuple(e)}: ", viol)
+            tags.append(tag)
     res["outcome"] = "+".join(tags)
     if g >= 2:
         res["nontrivial"] = repr(sorted(case.items(), key=str))
